@@ -875,6 +875,15 @@ def gen_history(rng: random.Random, pool: list, cfg: dict | None = None) -> dict
             op = {"op": "read", "cls": cls, "file": pool[fi]["name"], "by": rng.choice(["file", "text"])}
         last_cls = cls
         ops.append(op)
+    twins = [(f["twin_of"], f["name"]) for f in pool if f.get("twin_of")]
+    if twins and len(ops) >= 2 and rng.random() < cfg.get("p_twins", 0.3):
+        # the last two calls meet a file and its twin (the same decay lines under a differently ordered EventType line)
+        a, b = rng.choice(twins)
+        if rng.random() < 0.5:
+            a, b = b, a
+        ops[-2]["file"], ops[-1]["file"] = a, b
+        if ops[-1]["op"] == "convert" and ops[-2]["op"] == "convert":
+            ops[-2]["lang"] = ops[-1]["lang"]
     if rng.random() < cfg.get("p_shared_name", 0.3):
         # one path, rewritten between calls: every call names the same file, whose content is another pool file each time
         for op in ops:
